@@ -213,7 +213,13 @@ pub extern "sysv64" fn memory_read_byte(areas: *const MemoryAreas, addr: u16) ->
     return memory_areas.video_ram[offset];
   }
   if addr < 0xc000 { // Cart RAM
-    let offset = addr as usize & 0x1fff;
+    let length = memory_areas.cart_ram.len();
+    if length == 0 {
+      // no RAM on the cartridge: open bus
+      return 0xff;
+    }
+    // a 2KB RAM chip is mirrored through the 8KB window
+    let offset = (addr as usize & 0x1fff) % length.min(0x2000);
     return memory_areas.cart_ram[0x2000 * memory_areas.cart_state.get_ram_bank() + offset];
   }
   if addr < 0xd000 { // Work RAM Bank 0
@@ -263,7 +269,13 @@ pub extern "sysv64" fn memory_write_byte(areas: *mut MemoryAreas, addr: u16, val
     return;
   }
   if addr < 0xc000 { // Cart RAM
-    let offset = addr as usize & 0x1fff;
+    let length = memory_areas.cart_ram.len();
+    if length == 0 {
+      // no RAM on the cartridge: the write is lost
+      return;
+    }
+    // a 2KB RAM chip is mirrored through the 8KB window
+    let offset = (addr as usize & 0x1fff) % length.min(0x2000);
     memory_areas.cart_ram[0x2000 * memory_areas.cart_state.get_ram_bank() + offset] = value;
     return;
   }
